@@ -376,6 +376,94 @@ def random_curved(rnd, d, box=16):
     raise RuntimeError("no valid curved triangle generated")
 
 
+def bulged_quadratic(rnd):
+    """a valid quadratic triangle whose three edges bulge outward so far that every edge control point lies OUTSIDE the
+    homothetic straight triangle OUTER (factor lam about the centroid) which nevertheless contains the whole curved
+    triangle: edge i is offset by h_i/2 <= 3/4 delta_i < delta_i while its control point is offset by h_i = 3/2 delta_i.
+    Returns (curved nets, outer corner triangle nets, [small straight triangles around each edge control point, disjoint
+    from the curved triangle])"""
+    for _ in range(200):
+        c = [(Fr(rnd.randint(0, 12)), Fr(rnd.randint(0, 12))) for _ in range(3)]
+        cr = K.cross(*c)
+        if cr < 0:
+            c = [c[0], c[2], c[1]]
+            cr = -cr
+        if cr < 12:
+            continue
+        g = (sum(p[0] for p in c) / 3, sum(p[1] for p in c) / 3)
+        lam1 = Fr(rnd.choice([1, 2, 3]), 8)                       # lam - 1
+        ctrl, small = {}, []
+        for (a, b, name) in ((0, 1, "01"), (0, 2, "02"), (1, 2, "12")):
+            ex, ey = c[b][0] - c[a][0], c[b][1] - c[a][1]
+            tt = ((g[0] - c[a][0]) * ex + (g[1] - c[a][1]) * ey) / (ex * ex + ey * ey)
+            foot = (c[a][0] + tt * ex, c[a][1] + tt * ey)
+            dvec = (lam1 * (foot[0] - g[0]), lam1 * (foot[1] - g[1]))        # outward, length delta
+            mid = ((c[a][0] + c[b][0]) / 2, (c[a][1] + c[b][1]) / 2)
+            P = (mid[0] + Fr(3, 2) * dvec[0], mid[1] + Fr(3, 2) * dvec[1])
+            ctrl[name] = P
+            # a small triangle around P inside the strip (3/4 delta, ...) measured along the normal: radius delta / 4
+            r = (dvec[0] / 4, dvec[1] / 4)
+            q = (-r[1], r[0])
+            tri = [(P[0] - r[0] - q[0], P[1] - r[1] - q[1]), (P[0] - r[0] + q[0], P[1] - r[1] + q[1]), (P[0] + r[0], P[1] + r[1])]
+            if K.cross(*tri) < 0:
+                tri = [tri[0], tri[2], tri[1]]
+            small.append([[t[0] for t in tri], [t[1] for t in tri]])
+        # the nets handed to the library are binary64: round to a dyadic grid here (the margins above are macroscopic, and the verdict is
+        # certified on the rounded nets by judge_curved anyway)
+        def r64(rows_):
+            return [[Fr(round(v * 2 ** 20), 2 ** 20) for v in row] for row in rows_]      # dyadic: exact in binary64 and for the oracle
+        rows = r64([[c[0][r], ctrl["01"][r], c[1][r], ctrl["02"][r], ctrl["12"][r], c[2][r]] for r in range(2)])
+        if not jacobian_bernstein_positive(rows, 2):
+            continue
+        outer = [(g[0] + (1 + lam1) * (p[0] - g[0]), g[1] + (1 + lam1) * (p[1] - g[1])) for p in c]
+        outer_rows = r64([[p[0] for p in outer], [p[1] for p in outer]])
+        return rows, outer_rows, [r64(t) for t in small]
+    raise RuntimeError("no bulged triangle generated")
+
+
+def relabel_quadratic(rows, k):
+    """the same quadratic triangle with its corners relabelled cyclically k times (orientation kept)"""
+    for _ in range(k % 3):
+        rows = [[r[2], r[4], r[5], r[1], r[3], r[0]] for r in rows]
+    return rows
+
+
+def corner_on_edge_curved(rnd):
+    """a straight triangle T1 with an edge on the x-axis (interior above) and a valid quadratic triangle T2 with a corner P
+    in the interior of that edge; the edge of T2 ARRIVING at P is curved: it leaves its start A (inside T1) going away
+    from the x-axis and comes back down to P, so that its tangents at the two ends lie on different sides of the edge of
+    T1; the edge leaving P goes outside T1.  Rotated by a multiple of 90 degrees, translated, corners relabelled."""
+    for _ in range(400):
+        a, b = rnd.randint(2, 6), rnd.randint(4, 8)
+        t1 = [[Fr(-a), Fr(b), Fr(rnd.randint(-1, 3))], [Fr(0), Fr(0), Fr(rnd.randint(6, 10))]]
+        P = (Fr(rnd.randint(-2 * (a - 1), 2 * (b - 2)), 2), Fr(0))
+        A = (P[0] + Fr(rnd.randint(-2, 4), 2), Fr(rnd.randint(1, 4), 2))
+        ctrl = (A[0] + Fr(rnd.randint(-2, 2), 2), A[1] + Fr(rnd.randint(2, 6), 2))
+        Cc = (P[0] + Fr(rnd.randint(-3, 1), 2), -Fr(rnd.randint(1, 4), 2))
+        if K.cross(A, P, Cc) <= 0:
+            continue
+        mid = lambda u, v: ((u[0] + v[0]) / 2, (u[1] + v[1]) / 2)     # noqa: E731
+        pts = [A, ctrl, P, mid(A, Cc), mid(P, Cc), Cc]
+        t2 = [[q[0] for q in pts], [q[1] for q in pts]]
+        if not jacobian_bernstein_positive(t2, 2):
+            continue
+        t2 = relabel_quadratic(t2, rnd.randint(0, 2))
+        rot = rnd.randint(0, 3)
+        sh = (Fr(rnd.randint(-3, 3)), Fr(rnd.randint(-3, 3)))
+
+        def mv(rows):
+            xs, ys = rows
+            for _ in range(rot):
+                xs, ys = [-y for y in ys], list(xs)
+            return [[x + sh[0] for x in xs], [y + sh[1] for y in ys]]
+        return mv(t1), mv(t2)
+    raise RuntimeError("no corner-on-edge configuration generated")
+
+
+def Z_f64(v):
+    return Fr(float(v)) == v
+
+
 def judge_curved(status, infos, contained, n1, d1, n2, d2, polys, depth):
     """-> (what, text) / (None, tag)"""
     if status == "NotImplementedError":
@@ -970,7 +1058,24 @@ def main():
             break
         d1, d2 = rnd.randint(1, 4), rnd.randint(1, 4)
         n1, n2 = random_curved(rnd, d1), random_curved(rnd, d2)
-        if k % 7 == 3:
+        if k % 5 == 1:
+            # no edge meets an edge, and the control points mislead: a bulged quadratic inside the straight triangle that
+            # its edge control points stick out of / a small straight triangle around one of those control points
+            # (disjoint from the curved triangle although inside its control-point box); either argument order
+            bq, outer, small = bulged_quadratic(rnd)
+            if (k // 5) % 2 == 0:
+                n1, d1, n2, d2 = outer, 1, bq, 2
+            else:
+                n1, d1, n2, d2 = rnd.choice(small), 1, bq, 2
+            if rnd.random() < 0.5:
+                n1, d1, n2, d2 = n2, d2, n1, d1
+        elif k % 5 == 3:
+            # a corner of a curved triangle in the interior of an edge of a straight one, reached by a curved edge
+            t1s, t2q = corner_on_edge_curved(rnd)
+            n1, d1, n2, d2 = t1s, 1, t2q, 2
+            if rnd.random() < 0.5:
+                n1, d1, n2, d2 = n2, d2, n1, d1
+        elif k % 7 == 3:
             # a small copy of the second triangle placed at the centroid of the corners of the first (usually contained)
             cx = sum(n1[0][i] for i in (0, d1, len(n1[0]) - 1)) / 3
             cy = sum(n1[1][i] for i in (0, d1, len(n1[1]) - 1)) / 3
